@@ -101,3 +101,62 @@ def c17_parent_retyped(f, replay):
             except Exception:  # noqa: BLE001
                 return True
     return False
+
+
+def c12_lift_split_invalid(f, replay):
+    """C12 open finding: `lift_target` approves a lift whose split leaves an invalid node behind.  `can_cut`
+    only asks whether the children before / after the range are valid content *on their own*; when the lift
+    splits several levels, the node left before (after) the range at level d also receives the split-off copy
+    of its level-(d+1) child as its last (first) child, which `can_cut` does not look at — e.g. the first item
+    of a nested list: ul(li(p, ol(li1, li2))) lifting li1 to depth 1 leaves li(ol(li2)) without its leading
+    paragraph.  Upstream algorithm.  Class: recompute the nodes the split leaves on either side, level by
+    level, and report the class when one of them is not valid content for its type."""
+    from prosemirror.model import Fragment, Node
+    from . import schemas
+    if replay.get("helper") != "lift_target":
+        return False
+    info = schemas.by_name(replay["schema"])
+    doc = Node.from_json(info.schema, replay["doc"])
+    rng_ = doc.resolve(replay["pos"]).block_range(doc.resolve(replay["to"]))
+    if rng_ is None:
+        return False
+    target = replay["target"]
+    fr, to, depth = rng_.from_, rng_.to, rng_.depth
+    before = after = None
+    for d in range(depth, target, -1):
+        node = fr.node(d)
+        kids_before = node.content.content[:fr.index(d)]
+        if before is not None:
+            kids_before = kids_before + [before]
+        node_t = to.node(d)
+        kids_after = node_t.content.content[to.index_after(d):]
+        if after is not None:
+            kids_after = [after] + kids_after
+        for kids, n in ((kids_before, node), (kids_after, node_t)):
+            if kids and not n.type.valid_content(Fragment(kids)):
+                return True
+        before = node.copy(Fragment(kids_before)) if kids_before else None
+        after = node_t.copy(Fragment(kids_after)) if kids_after else None
+    return False
+
+
+def c12_wrap_ignores_marks(f, replay):
+    """C12 open finding: `find_wrapping` compares node *types* only; when a node in the range carries marks
+    the innermost wrapper does not allow (only possible where the current parent allows marks on block nodes,
+    e.g. a doc with marks "_"), the approved wrap cannot produce a valid document (the step is refused:
+    'Content does not fit in gap').  Upstream algorithm.  Class: some node of the range has a mark whose type
+    the innermost wrapper type does not allow."""
+    from prosemirror.model import Node
+    from . import schemas
+    if replay.get("helper") != "find_wrapping":
+        return False
+    info = schemas.by_name(replay["schema"])
+    doc = Node.from_json(info.schema, replay["doc"])
+    rng_ = doc.resolve(replay["pos"]).block_range(doc.resolve(replay["to"]))
+    if rng_ is None:
+        return False
+    inner = info.schema.nodes[replay["chain"][-1]]
+    for i in range(rng_.start_index, rng_.end_index):
+        if not inner.allows_marks(rng_.parent.child(i).marks):
+            return True
+    return False
